@@ -129,6 +129,9 @@ def _spellings(root: Path, cwd: Path, sub: str | None):
     out = {"abs": str(target), "rel": rel, "dotted": "./" + rel if not rel.startswith(".") else rel, "slashes": str(target).replace("/proj", "//proj/.", 1)}
     if rel != ".":
         out["trailing"] = rel + "/"
+    if sub is None and cwd == root:
+        # an absolute path that is not in normal form: <root>/tests/.. is the root again
+        out["abs-dotdot"] = str(target / "tests" / "..")
     if sub is None and cwd.name == "elsewhere":
         # the same project reached through a symbolic link that lives in this directory
         out["symlink"] = "link"
